@@ -427,7 +427,7 @@ theorem cast_eq_constructor (ver : Lex.Ver) (s : List Char) :
 /-- which (operand, target) pairs `cast_eq_spec_partial` speaks about -/
 def castInScope (a : Lex.Atom) (t : Lex.Target) : Prop :=
   match a, t with
-  | .dbl _ _, .string => False                  -- F10b: see `double_string_*`
+  | .dbl _ _, .string => False                  -- stated separately: `double_string`
   | .dbl _ _, .untypedAtomic => False
   | .dec _, .string => False                    -- canonical decimal strings: see `dec_canon_fixed_point`
   | .dec _, .untypedAtomic => False
@@ -436,7 +436,7 @@ def castInScope (a : Lex.Atom) (t : Lex.Target) : Prop :=
 /-- PARTIAL: **the casts of the corner follow F&O 3.1 §19** — success and value (error codes forgotten):
 strings/untypedAtomic through the lexical spaces (XSD white space), boolean ↔ numeric, truncation toward zero for
 decimal/double → integer with the facets of the derived types, exact double → decimal, exact
-integer → decimal, integer → double always succeeds.  Out of scope (`castInScope`): double → string (F10b) and
+integer → decimal, integer → double always succeeds.  Out of scope (`castInScope`): double → string (`double_string`) and
 decimal → string (stated separately as `dec_canon_fixed_point`, `dec_canon_is_canonical`). -/
 theorem cast_eq_spec_partial (ver : Lex.Ver) (a : Lex.Atom) (t : Lex.Target) (h : castInScope a t) :
     toSRes (Lex.cast ver a t) = XSD.castSpec (toSAtom a) (toSType ver t) := by
@@ -600,38 +600,73 @@ theorem int_dec_string_roundtrip (ver : Lex.Ver) (v : Int) :
         Nat.ofDigitChars_ten_toDigits, natAbs_signed]
     · rw [decOfLex_intCanon, decCanon_of_int]
 
-/-- PARTIAL (known finding F10b) **double → string in canonical E-notation**: for a finite non-zero double
-with shortest digits `ds` and decimal exponent `e`, outside the trigger `dblStrTrigger` the string that
-`string_value` derives from CPython's `repr` *is* the F&O / XSD canonical form (decimal notation for
-1e-6 ≤ |x| < 1e6, otherwise `d.dddE±x`).  `pyRepr` is the model of `repr(float)` stated in
-EPV/Lemmas/LexicalRepr.lean (trusted; compared with the real `repr` by the harness).
-Full statement (false, see `double_string_fails`): the same without the trigger hypothesis. -/
-theorem double_string_partial (neg : Bool) (n k : Nat) (ds : List Char) (e : Int) (hwf : WFDigits ds)
-    (ht : Lex.dblStrTrigger ds.length e = false) :
-    Lex.dblString (.fin neg n k) (pyRepr neg ds e) = XSD.doubleCanon neg ds e := by
-  rw [dblString_fin]; exact finStr_pyRepr neg ds e hwf ht
+/-- **double → string is the canonical form** (full strength since fix-c10-7; former finding F10b): for every sign, every
+digit string and every exponent of `Decimal(repr(x)).as_tuple()`, `atomic_string_value` produces the F&O / XSD canonical
+representation of the double whose shortest digits are the coefficient without its trailing zeros and whose decimal exponent is
+`exponent + len(digits) − 1`: decimal notation for 1e-6 ≤ |x| < 1e6, otherwise `d.dddE<exponent>` with at least one fraction
+digit and an exponent without sign or leading zeros.  (The digits are CPython's `repr`; `decTupleOfRepr` reads them off.) -/
+theorem double_string (neg : Bool) (digits : List Char) (exp : Int) :
+    Lex.dblOfTuple neg digits exp =
+      XSD.doubleCanon neg (Lex.rstrip '0' digits) (exp + (digits.length : Int) - 1) := by
+  unfold Lex.dblOfTuple XSD.doubleCanon
+  simp only []
+  generalize Lex.rstrip '0' digits = text
+  generalize exp + (digits.length : Int) - 1 = e
+  have hbody : ∀ a b : List Char, a = b →
+      (if neg then ['-'] else []) ++ a = if neg then '-' :: b else b := by
+    intro a b h; subst h; cases neg <;> rfl
+  apply hbody
+  by_cases hr : -6 ≤ e ∧ e < 6
+  · have hb : (decide (-6 ≤ e) && decide (e < 6)) = true := by simp [hr.1, hr.2]
+    rw [if_pos hr, if_pos hb]
+    by_cases hneg : e < 0
+    · have h0 : ¬ (0 ≤ e) := by omega
+      rw [if_pos hneg, if_neg h0]
+    · have h0 : 0 ≤ e := by omega
+      rw [if_neg hneg, if_pos h0]
+      by_cases hl : text.length ≤ e.toNat + 1
+      · rw [if_pos hl, List.take_of_length_le hl, List.drop_of_length_le hl]
+        rfl
+      · have hz : e.toNat + 1 - text.length = 0 := by omega
+        have hd : (text.drop (e.toNat + 1)).isEmpty = false := by
+          cases hx : text.drop (e.toNat + 1) with
+          | nil => have := List.drop_eq_nil_iff.1 hx; omega
+          | cons _ _ => rfl
+        rw [if_neg hl, hz, hd]
+        simp
+  · have hb : ¬ (decide (-6 ≤ e) && decide (e < 6)) = true := by
+      intro hc
+      simp only [Bool.and_eq_true, decide_eq_true_eq] at hc
+      exact hr hc
+    rw [if_neg hr, if_neg hb, intCanon_eq]
+    congr 1
+    match text with
+    | [] => rfl
+    | [d] => rfl
+    | d :: x :: r => rfl
 
-/-- F10b witnesses (kernel-checked): 1e-7 → '1E-07' (canonical '1.0E-7'); 1e6 → '1000000' ('1.0E6');
-1e-5 → '1E-05' ('0.00001'); 1e16 → '1E16' ('1.0E16'). -/
-theorem double_string_fails :
-    (pyRepr false ['1'] (-7) = "1e-07".toList ∧ Lex.dblString (.fin false 1 0) "1e-07".toList = "1E-07".toList ∧
-      XSD.doubleCanon false ['1'] (-7) = "1.0E-7".toList ∧ Lex.dblStrTrigger 1 (-7) = true) ∧
-    (pyRepr false ['1'] 6 = "1000000.0".toList ∧ Lex.dblString (.fin false 1 0) "1000000.0".toList = "1000000".toList ∧
-      XSD.doubleCanon false ['1'] 6 = "1.0E6".toList ∧ Lex.dblStrTrigger 1 6 = true) ∧
-    (pyRepr false ['1'] (-5) = "1e-05".toList ∧ Lex.dblString (.fin false 1 0) "1e-05".toList = "1E-05".toList ∧
-      XSD.doubleCanon false ['1'] (-5) = "0.00001".toList ∧ Lex.dblStrTrigger 1 (-5) = true) ∧
-    (pyRepr false ['1'] 16 = "1e+16".toList ∧ Lex.dblString (.fin false 1 0) "1e+16".toList = "1E16".toList ∧
-      XSD.doubleCanon false ['1'] 16 = "1.0E16".toList ∧ Lex.dblStrTrigger 1 16 = true) := by decide
-
-/-- the hypotheses of `double_string_partial` are satisfiable on non-trivial doubles (tests on literals):
-1.5e20, −123456.789, 0.00015, 2.5e-10 -/
+/-- reading the tuple off the repr, and the whole path, on literals (kernel evaluation): the values on both sides of every
+border of the former finding -/
 example :
-    (Lex.dblStrTrigger 2 20 = false ∧ pyRepr false "15".toList 20 = "1.5e+20".toList ∧
-      Lex.dblString (.fin false 1 0) "1.5e+20".toList = "1.5E20".toList) ∧
-    (Lex.dblStrTrigger 9 5 = false ∧ pyRepr true "123456789".toList 5 = "-123456.789".toList ∧
-      XSD.doubleCanon true "123456789".toList 5 = "-123456.789".toList) ∧
-    (Lex.dblStrTrigger 2 (-4) = false ∧ pyRepr false "15".toList (-4) = "0.00015".toList) ∧
-    (Lex.dblStrTrigger 2 (-10) = false ∧ XSD.doubleCanon false "25".toList (-10) = "2.5E-10".toList) := by decide
+    Lex.decTupleOfRepr "1e-07".toList = (false, "1".toList, -7) ∧ Lex.decTupleOfRepr "-1.5e+20".toList = (true, "15".toList, 19) ∧
+    Lex.decTupleOfRepr "100000.0".toList = (false, "1000000".toList, -1) ∧
+    Lex.decTupleOfRepr "0.00015".toList = (false, "15".toList, -5) ∧
+    Lex.dblString (.fin false 1 0) "1e-07".toList = "1.0E-7".toList ∧ Lex.dblString (.fin false 1 0) "1000000.0".toList = "1.0E6".toList ∧
+    Lex.dblString (.fin false 1 0) "1e-05".toList = "0.00001".toList ∧ Lex.dblString (.fin false 1 0) "1e+16".toList = "1.0E16".toList ∧
+    Lex.dblString (.fin false 1 0) "999999.9".toList = "999999.9".toList ∧ Lex.dblString (.fin true 1 0) "-1.5e-06".toList = "-0.0000015".toList ∧
+    Lex.dblString (.fin false 1 0) "123456.789".toList = "123456.789".toList ∧ Lex.dblString (.fin false 1 0) "1.5e+20".toList = "1.5E20".toList ∧
+    Lex.dblString (.fin false 1 0) "100000.0".toList = "100000".toList ∧ Lex.dblString (.fin false 1 0) "5e-324".toList = "5.0E-324".toList ∧
+    Lex.dblString (.fin true 0 0) "-0.0".toList = "-0".toList ∧ Lex.dblString (.fin false 0 0) "0.0".toList = "0".toList := by decide
+
+/-- the pinned helper `string_value` (kept byte-identical for the suite, still the XPath 1.0 rendering) is *not* canonical:
+1e-7 → '1E-07', 1e6 → '1000000', 1e-5 → '1E-05', 1e16 → '1E16' (kernel-checked; the region of the former finding F10b, before
+fix-c10-7) -/
+theorem pinned_string_value_deviates :
+    (Lex.pinnedFloatStr "1e-07".toList = "1E-07".toList ∧ XSD.doubleCanon false ['1'] (-7) = "1.0E-7".toList ∧ pinnedDeviationRegion 1 (-7) = true) ∧
+    (Lex.pinnedFloatStr "1000000.0".toList = "1000000".toList ∧ XSD.doubleCanon false ['1'] 6 = "1.0E6".toList ∧ pinnedDeviationRegion 1 6 = true) ∧
+    (Lex.pinnedFloatStr "1e-05".toList = "1E-05".toList ∧ XSD.doubleCanon false ['1'] (-5) = "0.00001".toList ∧ pinnedDeviationRegion 1 (-5) = true) ∧
+    (Lex.pinnedFloatStr "1e+16".toList = "1E16".toList ∧ XSD.doubleCanon false ['1'] 16 = "1.0E16".toList ∧ pinnedDeviationRegion 1 16 = true) := by
+  decide
 
 /-- the scope is inhabited by non-trivial pairs (tests on literals): -1.50 → integer truncates toward
 zero; 300 does not fit xs:byte; the double −3/2 becomes the decimal −1.5 exactly -/
